@@ -230,5 +230,17 @@ void harness (void)
       POST (!queue_has_freed_owner (), "swap.restore no queued owner object has been deallocated");
       REACH ("swap-restored"); }
 #endif
+
+#elif VERIF_OP == 4 /* ------------------------------------------------ bus_service_list_queued_owners */
+  __CPROVER_assume (n >= 1);                     /* OWN_INV: a registered name has >= 1 owner */
+  DBusList *out = NULL; (void) was; (void) who;
+  ok = bus_service_list_queued_owners (&svc, &out);
+  snapshot (&post);
+  POST (q_equal (&post, &pre), "listq.frame the queue itself is not changed");
+  if (ok)
+    { int m = 0, good = 1; DBusList *l = out;
+      for (i = 0; i < REF_QMAX + 1; i++) if (l != NULL) { if (m < REF_QMAX && l->data != (void *) cname[pre.e[m].conn]) good = 0; m++; l = (l->next == out) ? NULL : l->next; }
+      POST (m == n && good, "listq.names result = unique names of the queued connections, primary first, queue order"); REACH ("listed"); }
+  else { POST (out == NULL, "listq.fail FALSE returns an empty list"); REACH ("list-oom"); }
 #endif
 }
